@@ -169,4 +169,5 @@ def run(ck):
             seen.add(k); ck.violation(v)
     if (dis or ck.broken) and not viol:
         ck.violation(dict(kind='broken-tie', detail=dict(broken=ck.broken, disagreements=[x['why'] for x in dis[:3]]),
+                          first_case=dis[0]['ant'] if dis else None,
                           theorem='Pmn.Props.C05.* / correspondence fill entries on moved antennas'), found_input=False)
